@@ -29,6 +29,17 @@ def hasTag (series pred : String) : Bool :=
   | [_, tags] => (tags.splitOn ",").contains pred
   | _ => false
 
+def sortStrs (l : List String) : List String := (l.toArray.qsort (· < ·)).toList
+def semi (l : List String) : String := if l.isEmpty then "-" else ";".intercalate l
+
+/-- tag pairs of a canonical series key `meas|k=v,k=v` -/
+def tagsOf (series : String) : List (String × String) :=
+  match series.splitOn "|" with
+  | [_, tags] => if tags == "-" then [] else (tags.splitOn ",").filterMap fun kv => match kv.splitOn "=" with
+    | [k, v] => some (k, v)
+    | _ => none
+  | _ => []
+
 def showWrite : WriteRes → String
   | .ok => "ok" | .partialWrite n => s!"partial {n}" | .failed => "err"
 
@@ -78,12 +89,27 @@ def step (s : St) (line : String) : St × String :=
   | ["snap"] => (s, "ok")
   | "compact" :: _ => (s, "ok")
   | ["reopen"] => (s, "ok")
-  | ["del", meas, pred, tmin, tmax] =>
-    match tmin.toInt?, tmax.toInt? with
+  | [op, meas, pred, tmin, tmax] =>
+    if op != "del" && op != "snapdel" then (s, "bad-op") else
+    -- open ends: beyond any int64 timestamp
+    let lo := if tmin == "-inf" then some (-(2:Int)^70) else tmin.toInt?
+    let hi := if tmax == "+inf" then some ((2:Int)^70) else tmax.toInt?
+    match lo, hi with
     | some a, some b =>
-      let sel := fun series => (series.splitOn "|").head? == some meas && (pred == "-" || hasTag series pred)
+      let sel := fun series => (meas == "*" || (series.splitOn "|").head? == some meas) && (pred == "-" || hasTag series pred)
       (deleteRange s sel a b, "ok")
     | _, _ => (s, "bad-op")
+  | ["dropm", meas] =>
+    let sel := fun series => (series.splitOn "|").head? == some meas
+    (deleteRange s sel (-(2:Int)^70) ((2:Int)^70), "ok")
+  | ["series"] => (s, semi (sortStrs (seriesList s)))
+  | ["meas"] => (s, semi (sortStrs (measurements s)))
+  | ["tagkeys", meas] =>
+    let ks := ((s.index.filter (·.2 == meas)).flatMap fun e => (tagsOf e.1).map (·.1)).eraseDups
+    (s, semi (sortStrs ks))
+  | ["tagvals", meas, key] =>
+    let vs := ((s.index.filter (·.2 == meas)).flatMap fun e => ((tagsOf e.1).filter (·.1 == key)).map (·.2)).eraseDups
+    (s, semi (sortStrs vs))
   | ["read", meas, tags, field, tmin, tmax, dir] =>
     match tmin.toInt?, tmax.toInt? with
     | some a, some b => (s, render (read s (meas ++ "|" ++ tags) field a b (dir == "asc")))
